@@ -752,7 +752,7 @@ R_HEADER_NOTE = '''(* readxml.py - additional readings:
      clear_filecache: assigning {} to the module global replaces the cache component of the state by the empty cache;
    * process_measurements / dedupe_parameters: a dict display with the keys of a modifier / parameter config / measurement / the result of
      process_sample is the record (the pair (sample, parameter_configs) for the last one; result.pop('parameter_configs') splits it);
-     {k['name']: dict(**k) for k in l} and {v['name']: v for v in l} are dict_of N l (configs keyed by name, first position, last value; the
+     {k['name']: <a dict(..) copy of k> for k in l} and {v['name']: v for v in l} are dict_of N l (configs keyed by name, first position, last value; the
      first holds copies, so updating a popped config does not write into the caller's list - the second form followed by an update is
      refused); d.pop(k, x) is dict_pop N k d (the config or x, and the dict without it), d[k] = v is pm_set (in place when the key is there, at
      the end otherwise), d.values() the list; p.update({..}) replaces fields; l.extend(l') is ++; duplicates.setdefault(k, []).append(p) is
